@@ -39,9 +39,43 @@ def make_tle_dir(scratch, spacecraft=("noaa16", "noaa14", "noaa15", "noaa12", "n
     d = os.path.join(scratch, "tle")
     os.makedirs(d, exist_ok=True)
     src = os.path.join(REPO, "gapfilled_tles", "TLE_noaa16.txt")
+    # the shipped file is not in epoch order (its gap-filling sets are appended at the end); the readers expect a
+    # chronologically ordered file (C17), so the sets are written in epoch order here
+    sets = tle_sets(src)
+    sets.sort(key=lambda x: x[0])
+    text = "".join(a + "\n" + b + "\n" for _, a, b in sets)
     for sc in spacecraft:
-        shutil.copy(src, os.path.join(d, "TLE_%s.txt" % sc))
+        with open(os.path.join(d, "TLE_%s.txt" % sc), "w") as f:
+            f.write(text)
     return d, "TLE_%(satname)s.txt"
+
+
+def tle_epoch_ms(line1):
+    """Epoch of a TLE (fixed columns 19-32, two-digit year with the 1957 pivot of the format) in ms since 1970."""
+    import datetime
+    from fractions import Fraction
+    f = line1[18:32]
+    yy = int(f[:2])
+    year = 1900 + yy if yy >= 57 else 2000 + yy
+    day = Fraction(f[2:].strip())
+    return ((datetime.date(year, 1, 1) - datetime.date(1970, 1, 1)).days + day - 1) * 86400000
+
+
+_TLE_CACHE = {}
+
+
+def tle_sets(path):
+    key = (path, os.path.getmtime(path), os.path.getsize(path))
+    if key not in _TLE_CACHE:
+        lines = [l.rstrip("\n") for l in open(path) if l.strip()]
+        _TLE_CACHE[key] = [(tle_epoch_ms(lines[i]), lines[i], lines[i + 1]) for i in range(0, len(lines) - 1, 2)]
+    return list(_TLE_CACHE[key])
+
+
+def nearest_tle(path, t_ms):
+    """Independent choice of the element set: brute-force minimum of |epoch - t| over the whole file (any order)."""
+    best = min(tle_sets(path), key=lambda x: abs(x[0] - t_ms))
+    return best[1], best[2]
 
 
 def open_reader(fmt, data, name="file", **kw):
